@@ -80,6 +80,22 @@ Theorem C04_len_eq : forall s t, seq_len s = Z.of_nat (length (data s)) /\ (seq_
 Proof. exact (fun s t => conj (seq_len_spec s) (seq_eq_str_spec s t)). Qed.
 Print Assumptions C04_len_eq.
 
+(* == against any Python object: true exactly for a str with the same characters (case-sensitive); None, numbers,
+   tuples, lists, bytes, object() compare unequal; basket `in`, count, index, == [..] follow *)
+Theorem C04_eq_str_iff : forall s o b os,
+  (seq_eq_val s o = true <-> o = VS (data s)) /\
+  (basket_contains b o = true <-> exists s', In s' b /\ o = VS (data s')) /\
+  basket_count b o = length (filter (fun s' => seq_eq_val s' o) b) /\
+  (basket_eq_list b os = true <-> os = map (fun s' => VS (data s')) b) /\
+  match basket_index b o 0 with
+  | Some i => exists b1 s' b2, b = b1 ++ s' :: b2 /\ i = 0 + Z.of_nat (length b1) /\ o = VS (data s') /\
+                               forall x, In x b1 -> seq_eq_val x o = false
+  | None => basket_contains b o = false
+  end.
+Proof. exact (fun s o b os => conj (seq_eq_val_iff s o) (conj (basket_contains_iff b o) (conj eq_refl
+  (conj (basket_eq_list_iff b os) (basket_index_spec o b 0))))). Qed.
+Print Assumptions C04_eq_str_iff.
+
 Theorem C04_eq_bioseq : forall s t, seq_eq_seq s t = true <-> s = t.
 Proof. exact seq_eq_seq_spec. Qed.
 Print Assumptions C04_eq_bioseq.
@@ -300,6 +316,15 @@ Example C04_witness_basket :
   = Ok [mkseq (bs "ACGT"%bs) (bs "s0"%bs); mkseq (bs "GNA"%bs) (bs "s1"%bs)] /\
   basket_set_ij (mk_basket [bs "ACGT"%bs]) 1 (IInt 0) (bs "N"%bs) = Err IndexError.
 Proof. exact (conj eq_refl (conj eq_refl eq_refl)). Qed.
+
+Example C04_witness_eq :
+  seq_eq_val (new_seq (bs "META"%bs) []) (VS (bs "META"%bs)) = true /\
+  seq_eq_val (new_seq (bs "META"%bs) []) (VS (bs "meta"%bs)) = false /\
+  seq_eq_val (new_seq (bs "meta"%bs) []) (VS (bs "meta"%bs)) = false /\
+  seq_eq_val (new_seq (bs "META"%bs) []) VNone = false /\ seq_eq_val (new_seq (bs "4"%bs) []) (VI 4) = false /\
+  basket_index (mk_basket [bs "ACGT"%bs; bs "META"%bs]) (VS (bs "META"%bs)) 0 = Some 1 /\
+  basket_index (mk_basket [bs "ACGT"%bs; bs "META"%bs]) (VS (bs "meta"%bs)) 0 = None.
+Proof. exact (conj eq_refl (conj eq_refl (conj eq_refl (conj eq_refl (conj eq_refl (conj eq_refl eq_refl)))))). Qed.
 
 Example C04_witness_extended :
   slice_indices 6 (mkslice (Some 5) None (Some (-2))) = Some (5, -1, -2, 3) /\
